@@ -25,7 +25,10 @@ COVER = ("multi-step histories on one long-lived module (train / eval / frozen /
          "python-int indices, lens= in narrow integer dtypes on long sequences, float64 inputs with detail below float32 resolution, integer / half inputs at pixel magnitudes, aged states (running "
          "sums decayed by 2^-40), histories of more than a thousand updates before a checkpoint, partial strict=False checkpoints before the first batch, one-bit codebooks and other size-1 axes, "
          "a throw-away module built before the process group exists, the caller writing in place into everything any layer returns, and configurations the library rejects today being re-probed "
-         "on every run. In addition every function the property depends on is fingerprinted, so an edit is noticed - what matters "
+         "on every run; tied buffers and tied stages between modules, torch.func.functional_call (single-dict and tuple form) and parametrize, re-entrant forward hooks that call the module "
+         "on differently shaped inputs, throw-away instances (and pre-process-group probes) using public helpers with non-default arguments first, stage replacement on live stacks, negative zeros, "
+         "subnormal inputs, boundary usages just below / at a threshold, view-returning seeding functions, per-layer temperatures, per-rank-seeded modules inside a process group, unsigned "
+         "zero-length lens, codebooks beyond 2^24 entries, explicit default keyword arguments, the n-th identical pure call. In addition every function the property depends on is fingerprinted, so an edit is noticed - what matters "
          "is whether a concrete failing input is then found")
 for pid in ids:
     p = props[pid]
@@ -49,7 +52,7 @@ Your job: produce ONE small, realistic source change (1-12 changed lines inside 
  - TWO cooperating sites that each look fine alone;
  - a violation that needs a particular MULTI-STEP history or a particular combination of legal options and input values nobody would think of enumerating;
  - an "optimisation" that is wrong only sometimes (numerically: only for particular magnitudes or exact ties; structurally: only for particular shapes such as a batch of one, one code, one head, dim 1; temporally: only on the n-th call);
- - an interaction with a torch feature the checkers did not list (torch.compile is NOT available; think of codebooks or sub-modules SHARED between two parents (tied weights), shallow copy.copy of a module, a subclass overriding one helper, the same module called re-entrantly from a forward hook, torch.func.functional_call / stateless use with substituted buffers, a caller-registered forward pre-hook that changes the mask or input, results depending on the ORDER of keyword arguments or on passing defaults explicitly (mask=None, indices=None, lens=None given explicitly), the same tensor object passed as two arguments, extremely unbalanced batches (one sample of length 1 next to one of length 4096), repeated identical calls where the n-th differs, state carried in function attributes / module-level globals / lru_cache keyed by shapes, and numerical edge values that are legal but unusual (subnormals, -0.0, values just below a power of two)).
+ - an interaction with a torch feature the checkers did not list (torch.compile is NOT available; think of anything NOT in the list above: the list is long, so look for a violation in the plain, central behaviour under an unusual but legal COMBINATION of ordinary options and sizes (three or four options at once, sizes such as codebook_size 1 or 2, dim 1, heads equal to dim, num_quantizers 1, a batch of one token), or a numerical mistake that shows only in a narrow but legal band of magnitudes / exact ties, or a mistake in a rarely used public method of the class (every public method and property is fair game)).
 Do not make changes that merely crash; the code should run and silently violate the property. AVOID these already-tried ideas: {' || '.join(tried) if tried else '(none recorded)'}
 
 Deliverables (write them into {wt}/_seeded/ , create the directory):
